@@ -291,6 +291,25 @@ def _is_rec_count(t):
     return t[0] == "field" and t[2] == "confirmation_count" and "EventRecord" in t[3]
 
 
+def _root_local(body, l):
+    """follow single-definition copies and borrows (`_x = copy y`, `_x = &y`) back to the user variable"""
+    for _ in range(8):
+        ds = [d for d in body.defs.get(l, []) if not d[2]["p"]]
+        if len(ds) != 1:
+            break
+        rv = ds[0][3]
+        if rv["k"] == "use":
+            p = op_place(rv["op"])
+        elif rv["k"] == "ref":
+            p = rv["place"]
+        else:
+            break
+        if p is None or any(e != "*" for e in p["p"]):
+            break
+        l = p["l"]
+    return l
+
+
 def _advance_loop(chk, prog, cls, ub, ev, allow_skip):
     adv = [(bi, t) for bi, t in ub.calls() if (ub.callee_decl(t) or "") == ADVANCE]
     if len(adv) != 1:
@@ -325,14 +344,27 @@ def _advance_loop(chk, prog, cls, ub, ev, allow_skip):
         if not okq:
             chk.fail("R8.3", PCS_UPDATE, "advance-ungated", "the watermark candidate is advanced without a dominating `confirmation_count >= rf/2+1` on the entry (seen: %s)" % seen, ub, line)
             continue
-        # the entry compared must be the one looked up at exactly this counter
+        # the entry compared must be the one looked up at exactly this counter: the key of the BTreeMap::get that dominates
+        # the assignment is (a borrow of) the very local that is assigned to the watermark candidate
         key_ok = False
-        for c in comparisons(prog, ub, ev):
-            for side in (c["a"], c["b"]):
-                for x in walk(side):
-                    if isinstance(x, tuple) and x and x[0] == "call" and x[1].endswith("BTreeMap::<K, V, A>::get") and len(x[2]) == 2:
-                        if show(strip(x[2][1])) == show(strip(term)):
-                            key_ok = True
+        src = op_place(rv.get("op")) if rv["k"] == "use" else None
+        src_l = _root_local(ub, src["l"]) if src is not None and not src["p"] else None
+        for gb, gt in ub.calls():
+            if not (ub.callee_decl(gt) or "").endswith("BTreeMap::<K, V, A>::get") or len(gt["args"]) != 2:
+                continue
+            if not ub.dominates(gb, bi):
+                continue
+            kp = op_place(gt["args"][1])
+            if kp is not None and src_l is not None and _root_local(ub, kp["l"]) == src_l:
+                key_ok = True
+        if not key_ok and src_l is None:
+            # the candidate is an expression rather than a copy of the counter: fall back to comparing the rendered terms
+            for c in comparisons(prog, ub, ev):
+                for side in (c["a"], c["b"]):
+                    for x in walk(side):
+                        if isinstance(x, tuple) and x and x[0] == "call" and x[1].endswith("BTreeMap::<K, V, A>::get") and len(x[2]) == 2:
+                            if show(strip(x[2][1])) == show(strip(term)):
+                                key_ok = True
         if key_ok:
             chk.ok("R8.3", "watermark candidate := counter only under quorum for the entry at that counter", ub.where(line))
         else:
